@@ -237,6 +237,14 @@ UTF8String &UTF8String::Append(const UTF8String::storage_type &data, utf8helper:
 UTF8String& UTF8String::Transform(utf8helper::Transform func) {
   storage_type tmp(store);
   Clear();
+  /* the transformation applies to the content present now: the one installed
+   * in the parser is put back on every way out (a later WriteByte must not
+   * be transformed) */
+  struct Restore {
+    Parser& p;
+    utf8helper::Transform f;
+    ~Restore() { p.func = f; }
+  } restore = { parser, parser.func };
   parser.func = func;
   for (const codepoint& u : tmp) {
     char buf[5];
